@@ -13,7 +13,7 @@ from mon.gen import pomdp as GP
 from mon.probe.wrap import wrap
 
 PROP = "C14"
-CASES = {"quick": 1200, "thorough": 24000}
+CASES = {"quick": 1200, "thorough": 100000}
 CASE_TIMEOUT = 60
 REQUIRED = ["mdp_rollouts", "mdp_steps_validated", "pomdp_rollouts", "pomdp_steps_validated",
             "calc_returns_checked", "evaluate_on_calls", "captured_rollouts", "deterministic_exact_checked"]
